@@ -236,6 +236,33 @@ def chain(B, G, kind, n, h, a=None, kmax=3):
     for i, j in np.ndindex(nb, rbm.num_hidden):
         G.eq("continued.p_h[%d,%d]" % (i, j), sc.calls[0][i, j], ph_ref[i, j])
     G.fact("continued.not_overwritten", out2 is not out and all(float(B.scalars(out)[i, j]) == float(s1[-1][i][j]) for i in range(nb) for j in range(n)), "second call without overwrite")
+    # zero Gibbs steps requested through the public sample(): no draw, the start state is returned
+    sc.calls.clear()
+    sc.queue = []
+    z0 = C.rows_tensor(B, [rows[-1], rows[0]])
+    out0 = st.sample(0, initial_state=z0)
+    G.fact("sample(k=0).no_draws", len(sc.calls) == 0, "%d Bernoulli draws for k=0" % len(sc.calls))
+    G.fact("sample(k=0).returns_start", bool(np.all(B.scalars(out0) == B.scalars(z0))), "k=0 returns the start state")
+    # 1-D start state: result keeps the shape (n,), also with overwrite
+    for ow in (False, True):
+        sc.calls.clear()
+        sc.queue = [[1] * rbm.num_hidden] + ([[0] * a] if kind == "mixed" else []) + [list(rows[-1])]
+        v1 = C.rows_tensor(B, [rows[0]])[0]
+        o1 = st.sample(1, initial_state=v1, overwrite=ow)
+        G.fact("sample(1-D,overwrite=%s).shape" % ow, tuple(B.scalars(o1).shape) == (n,) and tuple(B.scalars(v1).shape) == (n,), "returned %s, caller's %s" % (tuple(B.scalars(o1).shape), tuple(B.scalars(v1).shape)))
+        G.fact("sample(1-D,overwrite=%s).values" % ow, [float(x) for x in B.scalars(o1).reshape(-1)] == [float(x) for x in rows[-1]], "last visible outcome")
+    # overwrite=True on a non-contiguous start state (a column-sliced view): the caller's storage is updated in place
+    if n >= 1:
+        wide = C.rows_tensor(B, [list(r) + list(r) for r in (rows[-1], rows[0])])
+        view = wide[:, ::2] if n > 1 else wide[:, :1]
+        sc.calls.clear()
+        newv = rand_bits(n)
+        sc.queue = [rand_bits(rbm.num_hidden)] + ([rand_bits(a)] if kind == "mixed" else []) + [newv]
+        o2 = st.sample(1, initial_state=view, overwrite=True)
+        wa = B.scalars(wide)
+        cols = list(range(0, 2 * n, 2)) if n > 1 else [0]
+        ok = all(float(wa[i, c]) == float(newv[i][j]) for i in range(nb) for j, c in enumerate(cols))
+        G.fact("overwrite.strided_view_updated_in_place", ok, "caller's backing tensor after overwrite=True on a strided view")
     # sample() without an initial state: start drawn from Bernoulli(1/2) of shape (num_samples, n)
     sc.calls.clear()
     sc.queue = [[[1] * n] * 3] + [[[0] * rbm.num_hidden] * 3] + ([[[0] * a] * 3] if kind == "mixed" else []) + [[[1] * n] * 3]
